@@ -597,8 +597,21 @@ impl<S: Service> World<S> {
                 }
             }
             "DropResponse" => {
-                let Some(hr) = self.held.remove(&st.h) else { return false };
+                // by handle (generator) or by the ids the response carries (programs from TLC)
+                let h = if st.h != 0 {
+                    st.h
+                } else {
+                    match self.held.iter().find(|(_, r)| r.c == st.c && r.seen.s == st.s && r.seen.n == st.n && r.seen.j == st.j) {
+                        Some((h, _)) => *h,
+                        None => return false,
+                    }
+                };
+                let Some(hr) = self.held.remove(&h) else { return false };
+                rec.h = h;
                 rec.c = hr.c;
+                rec.s = hr.seen.s;
+                rec.n = hr.seen.n;
+                rec.j = hr.seen.j;
                 rec.r = "ok".into();
             }
             "IsConnectedP" => {
